@@ -230,11 +230,21 @@ class SchedSuite:
     def execute(self, workdir, tag="sc"):
         impl = lib.run_sharded(lib.RVH, "sched", self.cases, workdir, tag + "i",
                                extra_env={"RVH_CASE_TIMEOUT": "120", "VERIF_JOBS": "8"})
+        model = lib.run_sharded(lib.DRIVER, "sched", self.cases, workdir, tag + "m")
         prop, corr = [], []
+        self.stats["model_compared"] = 0
         for c in self.cases:
             cid = c.split(" ", 1)[0]
             il = impl.get(cid, cid + " MISSING")
             res = il.split(" ")[1:]
+            mres = model.get(cid, "").split(" ")[1:]
+            if len(mres) == len(c.split(" ")) - 2 and len(res) >= len(mres) and "DRIVER-ERROR" not in model.get(cid, ""):
+                for i, (a, b) in enumerate(zip(res, mres)):
+                    if b != "*" and a != b and not a.startswith("parked@"):
+                        corr.append({"case": c, "impl": lib.trunc(il, 800), "model": lib.trunc(model.get(cid, ""), 800),
+                                     "kind": "conc-model", "detail": "step %d: implementation %s, concurrency model %s" % (i, lib.trunc(a, 60), lib.trunc(b, 60))})
+                        break
+                self.stats["model_compared"] += 1
             if "BGPANIC" in il or "HANG" in res[:1] or "HARNESS-PANIC" in il or "NO-OUTPUT" in il:
                 prop.append({"case": c, "impl": lib.trunc(il, 600), "spec": "", "model": "", "detail": "run failed: " + il[:300]})
                 continue
